@@ -119,11 +119,12 @@ public:
 	long trail;               // bytes after the end of the response
 	long lead;                // bytes in front of the status line (HTTP) that do not belong there
 	long records, maxrec;
+	long badid;               // FastCGI: records carrying the id of another request
 	std::string bad;          // first structural error
 	bool eof;
 
 	Deframer(Proto p,int reqid) : hdr_done(false), status(0), closed(false), terminators(0), endreq(0), stdout_end(0), padok(true),
-		aligned(true), trail(0), lead(0), records(0), maxrec(0), eof(false), proto_(p), reqid_(reqid), st_(p==P_FCGI ? R_HDR : H_LINE),
+		aligned(true), trail(0), lead(0), records(0), maxrec(0), badid(0), eof(false), proto_(p), reqid_(reqid), st_(p==P_FCGI ? R_HDR : H_LINE),
 		cl_(-1), chunked_(false), conn_close_(true), need_(0), rec_type_(0), rec_pad_(0), cgi_pos_(0), pos_(0), first_line_(true), keep_conn(false) {}
 
 	void feed(char const *p,size_t n) { raw_.append(p,n); parse(); }
@@ -283,7 +284,9 @@ private:
 				records++;
 				if(need_ > maxrec) maxrec = need_;
 				if(ver != 1) { fail("record version"); return; }
-				if(id != reqid_) { fail("record request id"); return; }
+				// a record stamped with another request's id is not part of this response: its content is dropped
+				foreign_ = id != reqid_;
+				if(foreign_) { badid++; st_ = R_BODY; continue; }
 				if(rec_type_ != 6 && rec_type_ != 3) { fail("unexpected record type"); return; }
 				if((need_ + rec_pad_) % 8 != 0) aligned = false;
 				if(rec_type_ == 6) {
@@ -300,9 +303,10 @@ private:
 			if(st_ == R_BODY) {
 				long have = raw_.size() - pos_;
 				long take = have < need_ ? have : need_;
-				if(rec_type_ == 6) cgi_.append(raw_,pos_,take); else endbody_.append(raw_,pos_,take);
+				if(foreign_) { /* skipped */ }
+				else if(rec_type_ == 6) cgi_.append(raw_,pos_,take); else endbody_.append(raw_,pos_,take);
 				pos_ += take; need_ -= take;
-				if(rec_type_ == 6) { St keep = st_; st_ = sub_; parse_entity(cgi_,cgi_pos_); sub_ = st_; st_ = keep; }
+				if(rec_type_ == 6 && !foreign_) { St keep = st_; st_ = sub_; parse_entity(cgi_,cgi_pos_); sub_ = st_; st_ = keep; }
 				if(need_ > 0) return;
 				need_ = rec_pad_;
 				st_ = R_PAD;
@@ -313,7 +317,8 @@ private:
 				for(long i=0;i<take;i++) if(raw_[pos_+i] != 0) padok = false;
 				pos_ += take; need_ -= take;
 				if(need_ > 0) return;
-				if(rec_type_ == 3) {
+				if(foreign_) st_ = R_HDR;
+				else if(rec_type_ == 3) {
 					endreq++;
 					if(stdout_end != 1) fail("END_REQUEST without exactly one end of STDOUT");
 					if(endbody_.size()==8 && endbody_[4] != 0) fail("END_REQUEST protocol status");
@@ -326,6 +331,7 @@ private:
 		}
 	}
 	St sub_ = H_LINE;
+	bool foreign_ = false;
 };
 
 } // vfy
